@@ -1,0 +1,32 @@
+//go:build verif
+
+// Contracts for package rng (comment-only; read by /verif/govc).
+
+package rng
+
+//@ // Deterministic choice (C16): the result lies in [0, n) for the n of THIS call, whatever an
+//@ // earlier call with the same hint asked for. The hint cache (a sync.Map, shared between
+//@ // goroutines) is handled by a rely/guarantee pair: every value this function stores is a
+//@ // non-negative int below 2^31 (checked), and every value it loads is assumed to be one.
+//@ func FixedInt(n int, hint string) (r int)
+//@   property C16
+//@   mode int
+//@   noframe
+//@   may_panic
+//@   assume_call Map.Load: result1 ==> typeof(result0) == typeid(int) && 0 <= payload(result0, int) && payload(result0, int) < 2147483648
+//@   assert_call Map.Store: typeof(arg1) == typeid(int) && 0 <= payload(arg1, int) && payload(arg1, int) < 2147483648
+//@   ensures n <= 0 ==> r == 0
+//@   ensures n > 0 ==> 0 <= r && r < n
+//@   // the value is a function of (n, hint): SHA-256 is deterministic and the cache holds the
+//@   // digest-derived value under the hint - assumed, not derived (sync.Map contents unmodelled)
+//@   ensures_assumed r == fixedIntS(n, hint)
+//@
+//@ func FixedIntV(n int, hint string) (r int)
+//@   property C16
+//@   mode int
+//@   noframe
+//@   may_panic
+//@   assume_call Map.Load: result1 ==> typeof(result0) == typeid(int) && 0 <= payload(result0, int) && payload(result0, int) < 2147483648
+//@   assert_call Map.Store: typeof(arg1) == typeid(int) && 0 <= payload(arg1, int) && payload(arg1, int) < 2147483648
+//@   ensures n <= 0 ==> r == 0
+//@   ensures n > 0 ==> 0 <= r && r < n
